@@ -61,6 +61,7 @@ def showX (b : Bytes) : String := "x:" ++ String.ofList (b.flatMap fun c => [low
 
 def showErr : Err → String
   | .invalid => "err:invalid" | .syntax => "err:syntax" | .range => "err:range" | .other => "err:other"
+  | .byteRange => "{err:invalid|err:range|err:other}"
 
 def showRes {α} (f : α → String) : Res α → String
   | .ok v => "ok " ++ f v
